@@ -27,11 +27,11 @@ RULE = ("a directory tree with the same schema under two paths, different schema
         "one history over 80 (thorough 400) distinct schema and query files followed by repeats of the early ones; stampedes of 2..16 threads "
         "released by a barrier with 0-300 us sleeps between calls (never inside the cache lock); every call's result must equal "
         "the reference (exact tokens for Ok, exact message for Err, panic class otherwise). Cache event log (recorded under the cache's own lock): fills, hits, failed fills and the "
-        "distinct lock orders are reported as observations (the fill-once pattern is not part of the property and not judged). 4 (thorough 48) further stampedes run in a ThreadSanitizer build of the driver (std included): a race report is refuting, results compared as everywhere. Non-trivial = history with a failing call or >= 2 threads; "
+        "distinct lock orders are reported as observations (the fill-once pattern is not part of the property and not judged). 4 (thorough 48) further stampedes run in a ThreadSanitizer build of the driver (std included): a race report is refuting, results compared as everywhere. A 9-step history of CLI invocations into one output directory (other options, another file of the same base name, repeats), each compared with the same invocation into a fresh directory. Non-trivial = history with a failing call or >= 2 threads; "
         "distinct by the sequence of (thread, call id)")
 
 # minima that hold by construction (24 histories x >= 20 calls, every other one starting with a failing call; 12 stampedes x >= 2 threads x >= 3 calls)
-FLOOR = {"history-calls": 400, "stampede-calls": 60, "failing-calls-in-histories": 10, "calls-after-a-failure": 100, "cache-events": 300, "distinct-lock-orders": 3, "miri-runs": 1, "many-files-calls": 100, "tsan-runs": 2}
+FLOOR = {"history-calls": 400, "stampede-calls": 60, "failing-calls-in-histories": 10, "calls-after-a-failure": 100, "cache-events": 300, "distinct-lock-orders": 3, "miri-runs": 1, "many-files-calls": 100, "tsan-runs": 2, "cli-history-steps": 9}
 OPTS = [{"mode": "cli"}, {"mode": "cli", "normalization": "rust", "response_derives": "Debug"}, {"mode": "cli", "other_variant": True, "skip_none": True}]
 
 
@@ -418,8 +418,9 @@ def main(run):
         run.extra["tsan"] = {"status": "skipped"}
     else:
         run.extra["tsan"] = run_tsan(run, root, cwd, calls, by_id, compare, check_events)
+    cli_histories(run, root)
     shutil.rmtree(root, ignore_errors=True)
-    return run.finish(floor=FLOOR if run.tier == "quick" else {k: (v * 20 if k not in ("distinct-lock-orders", "miri-runs", "tsan-runs") else v * 4) for k, v in FLOOR.items()})
+    return run.finish(floor=FLOOR if run.tier == "quick" else {k: (v * 20 if k not in ("distinct-lock-orders", "miri-runs", "tsan-runs", "cli-history-steps") else (v * 4 if k != "cli-history-steps" else v)) for k, v in FLOOR.items()})
 
 
 MIRI_SCHEMA_A = "type Query { a: Int b: B }\ntype B { c: String }\n"
@@ -505,6 +506,59 @@ def run_miri(run, root, nseeds):
     res["distinct_lock_orders"] = len(orders)
     run.count("miri-distinct-lock-orders", len(orders))
     return res
+
+
+def cli_histories(run, root):
+    """the CLI delivery of the same function, across PROCESSES that share a file system: a sequence of `generate` invocations
+    writing to one output directory (different options, a different query file of the same base name, the same invocation
+    again) - each must leave exactly what the same invocation leaves in a fresh directory. What an earlier process left
+    behind (an output newer than the inputs, a stale file) is not an input."""
+    import subprocess
+    from .c02 import run_cli, DEADLOCK_RC
+    d = os.path.join(root, "cli")
+    os.makedirs(os.path.join(d, "other"))
+    sp = os.path.join(d, "schema.graphql")
+    open(sp, "w").write("type Query { a: A n: Int }\ntype A { id: ID name: String a: A }\n")
+    qp = os.path.join(d, "ops.graphql")
+    open(qp, "w").write("query First { a { id } }\nquery Second { n a { name a { id } } }\n")
+    qp2 = os.path.join(d, "other", "ops.graphql")      # same base name, other document
+    open(qp2, "w").write("query Third { n }\n")
+    steps = [("plain", [qp]), ("response derives", [qp, "-O", "Debug,Clone"]), ("selected operation", [qp, "--selected-operation", "Second"]),
+             ("module visibility", [qp, "-m", "crate"]), ("plain again", [qp]), ("other file, same base name", [qp2]), ("deprecated deny + other variant", [qp, "-d", "deny", "--fragments-other-variant"]),
+             ("formatted", [qp, "-O", "Debug"]), ("plain a third time", [qp])]
+    shared = os.path.join(d, "shared_out")
+    os.makedirs(shared)
+    seq_label = []
+    for k, (label, argv) in enumerate(steps):
+        fmt = [] if label == "formatted" else ["--no-formatting"]
+        alone = os.path.join(d, "alone%d" % k)
+        os.makedirs(alone)
+        outs = []
+        for outdir in (alone, shared):
+            try:
+                rc, so, se = run_cli(["generate", "--schema-path", sp] + argv + fmt + ["-o", outdir], cwd=d, timeout=240)
+            except subprocess.TimeoutExpired:
+                rc, se = None, "watchdog"
+            f = os.path.join(outdir, "ops.rs")
+            outs.append((rc, open(f).read() if os.path.exists(f) else None, se))
+        seq_label.append(label)
+        run.evaluated()
+        run.count("cli-history-steps")
+        case = {"id": "cli-history-step%d" % k, "corpus": "clean", "kind": "cli-history", "steps": list(seq_label), "argv": argv}
+        (rc_a, text_a, se_a), (rc_s, text_s, se_s) = outs
+        if rc_a is None or rc_s is None:
+            run.inconclusive_case(case["id"], "wall-clock watchdog fired on a CLI invocation")
+        elif DEADLOCK_RC in (rc_a, rc_s):
+            run.violation(case, "CLI invocation deadlocked: %s" % (se_a + se_s)[:160])
+        elif rc_a != 0 or text_a is None:
+            run.inconclusive_case(case["id"], "the reference invocation itself failed (exit %s): %s" % (rc_a, se_a[-160:]))
+        elif rc_s != rc_a or text_s != text_a:
+            i = next((i for i, (x, y) in enumerate(zip(text_s or "", text_a)) if x != y), 0)
+            run.violation(case, "step %d (%s) after %s: the shared output directory holds something else than the same invocation leaves in a fresh one (exit %s / %s, first difference at byte %d: %r vs %r)"
+                          % (k, label, seq_label[:-1][-3:], rc_s, rc_a, i, (text_s or "")[i:i + 40], text_a[i:i + 40]))
+        else:
+            run.held()
+            run.nontrivial("cli-history", k, label)
 
 
 def build_tsan():
